@@ -24,6 +24,7 @@ import (
 	"time"
 
 	dherrors "github.com/dolthub/dolt/go/libraries/utils/errors"
+	"github.com/dolthub/dolt/go/store/blobstore"
 	"github.com/dolthub/dolt/go/store/hash"
 	"github.com/dolthub/fslock"
 )
@@ -162,6 +163,10 @@ var verif_ghost struct {
 	// batched table lookups: the index entry fetched is the one whose suffix just matched
 	tMatched  bool
 	tMatchIdx uint32
+
+	// blobstore-backed manifest (conditional write)
+	bPutOK    bool      // CheckAndPutManifest returned nil
+	bReadLock hash.Hash // lock of the contents most recently read from the blobstore
 }
 
 // ---- stubs carrying the assumed contracts of external functions (see the extern blocks in verif_contracts.go)
@@ -198,4 +203,8 @@ func verif_x_tableIndex_entrySuffixMatches(ti tableIndex, idx uint32, h *hash.Ha
 
 func verif_x_tableIndex_indexEntry(ti tableIndex, idx uint32, a *hash.Hash) (entry indexEntry, err error) {
 	return ti.indexEntry(idx, a)
+}
+
+func verif_x_bs_CheckAndPutManifest(bs blobstore.Blobstore, ctx context.Context, expectedVersion string, contents []byte) (version string, err error) {
+	return bs.CheckAndPutManifest(ctx, expectedVersion, contents)
 }
